@@ -41,9 +41,13 @@ def run(prog, chk):
     gap_is_a_number(prog, chk)
     from props import C11
     C11.axis_consistency(prog, chk)  # dx / dy and coordinates never cross axes (shared with C11)
+    from props import C17
+    C17.depth_pairing(prog, chk)  # forward references are placed by retrying: a depth count leaked by a deferred attempt turns a valid chain into a limit error
     from props import geomalg
     geomalg.check_sites(prog, chk, "C09")
     geomalg.check(prog, chk, "C09", floor=47)
+    from props import strops
+    strops.check_for(prog, chk, "C09")  # A14.str-ops: how this property's strings are cut up is a reviewed, frozen inventory
 
 
 def _variant_of(n):
